@@ -321,6 +321,7 @@ fn c04_2g_stealer_pop() {
 
 //@ obligation: C04.1a
 //@ kind: K1
+//@ playback: yes
 //@ complete: yes
 //@ functions: spmc::BlockPtr::pack, BlockPtr::unpack
 //@ statement: for a real (32-aligned) block pointer and every id < 32: unpack(pack(p,id)) = (p,id); setting and clearing the bit-63 flag restores the word
@@ -342,6 +343,7 @@ fn c04_1a_pack_unpack() {
 
 //@ obligation: C04.3a
 //@ kind: K1
+//@ playback: yes
 //@ complete: yes
 //@ functions: spmc::BlockNode::mark_slots_read
 //@ statement: for every count of unread slots u (1..=32) and every size <= u: mark_slots_read(size) returns true iff it consumed the last
@@ -382,6 +384,7 @@ fn c04_canary() {
 
 //@ obligation: C04.5a
 //@ kind: K1
+//@ playback: yes
 //@ complete: no
 //@ bound: a block with slots 3..6 written; ranges [3,6) and [4,4)
 //@ safety-counts: yes
